@@ -25,7 +25,8 @@ ASSUMPTIONS = ["documented exception types taken from the library's own raise st
 
 
 def bounds(tier):
-    return {"constructor_N": "1..4", "arity": "0..7", "builder_shapes": "{1,2,3}^d (3-D quick: 6 shapes)"}
+    return {"constructor_N": "1..4", "arity": "0..7", "builder_shapes": "{1,2,3}^d (3-D quick: 6 shapes)",
+            "non_array_coefficient_kinds": 21}
 
 
 def cases(tier):
